@@ -87,6 +87,12 @@ type Op struct {
 	Flag   int    `json:"flag,omitempty"`
 	Add    bool   `json:"add,omitempty"`
 	Mbs    []int  `json:"mbs,omitempty"`
+	// Virt: a connector op that is part of the PREVIOUS update on the wire (a MessageMailboxesUpdated that also changes
+	// a flag is one update for the server and two steps - membership, then flag - for the model): nothing is sent
+	Virt bool `json:"virt,omitempty"`
+	// RO: the session issuing this command has its mailbox selected read-only. On a select op: use EXAMINE. On a body
+	// fetch: rendered as CFetchBodyRO (nothing is marked \Seen). On store/expunge/copy/move: refused like CSearchBad.
+	RO bool `json:"ro,omitempty"`
 }
 
 func natList(xs []int) string {
@@ -128,10 +134,21 @@ func (o Op) Coq() string {
 			c = fmt.Sprintf("CCopy %s %d", natList(o.Ps), o.Mb)
 		case "move":
 			c = fmt.Sprintf("CMove %s %d", natList(o.Ps), o.Mb)
+		}
+		if o.RO && (o.Cmd == "store" || o.Cmd == "expunge" || o.Cmd == "copy" || o.Cmd == "move") {
+			c = "CSearchBad" // ErrReadOnly: answered NO after the trailing flush only; nothing changes
+		}
+		switch o.Cmd {
 		case "fetchbody":
 			c = fmt.Sprintf("CFetchBody %s", natList(o.Ps))
+			if o.RO {
+				c = fmt.Sprintf("CFetchBodyRO %s false", natList(o.Ps))
+			}
 		case "fetchflagsbody":
 			c = fmt.Sprintf("CFetchFlagsBody %s", natList(o.Ps))
+			if o.RO {
+				c = fmt.Sprintf("CFetchBodyRO %s true", natList(o.Ps))
+			}
 		case "probe":
 			c = "CProbe"
 		case "search":
@@ -393,7 +410,11 @@ func (w *World) Do(o Op) (StepObs, error) {
 	probe := false
 	switch o.Cmd {
 	case "select":
-		r, err = c.Cmd(fmt.Sprintf("SELECT m%d", o.Mb))
+		if o.RO {
+			r, err = c.Cmd(fmt.Sprintf("EXAMINE m%d", o.Mb))
+		} else {
+			r, err = c.Cmd(fmt.Sprintf("SELECT m%d", o.Mb))
+		}
 	case "append":
 		w.MsgCount++
 		marker := fmt.Sprintf("msg%d", w.MsgCount)
@@ -500,6 +521,9 @@ func (w *World) remoteFlags(msg int) imap.FlagSet {
 }
 
 func (w *World) doConn(o Op) (StepObs, error) {
+	if o.Virt {
+		return StepObs{Outcome: "OOk"}, nil
+	}
 	var u imap.Update
 	switch o.Cmd {
 	case "new":
@@ -543,7 +567,13 @@ func (w *World) doConn(o Op) (StepObs, error) {
 		cur, _ := w.CurFlags(o.Msg)
 		var fl []string
 		for _, f := range cur {
+			if o.Flag > 0 && f == o.Flag {
+				continue
+			}
 			fl = append(fl, FlagNames[f])
+		}
+		if o.Flag > 0 && o.Add {
+			fl = append(fl, FlagNames[o.Flag]) // the same update also changes this flag (see Op.Virt)
 		}
 		u = imap.NewMessageMailboxesUpdated(w.Remote[o.Msg], ids, imap.NewFlagSet(fl...))
 	}
